@@ -820,6 +820,79 @@ def pack_rule(ctx):
             R.require(all(d is not None and 0 <= d <= 7 for d in discr.values()), "tags-fit-mask", fu.where(), "all type tags fit in 3 bits",
                       fail_msg="a ColumnType discriminant does not fit in the 3 type bits: %s" % discr)
 
+    # width function (writer) vs extension of the variable-width read (reader)
+    # (the writer's width functions are located on the plain fact base: the inlined view dissolves them into pack_columns)
+    PF = getattr(F, "plain", F)
+    pp = PF.one(r"pubsub::pack_columns$")
+    puts = [c for c in pp.calls if re.search(r"BufMut::put_u?int(_le|_ne)?$", c.f)]
+    wfns = set()
+    for c in puts:
+        if len(c.args) < 3 or op_place(c.args[2]) is None:
+            continue
+        for o in flow.origins(pp, op_place(c.args[2]), at=(c.bb, "T")):
+            if o.kind == "call" and PF.get(o.call.r) is not None:
+                wfns.add(o.call.r)
+    # follow callees of the width functions inside the workspace
+    work = list(wfns)
+    while work:
+        f_ = PF.get(work.pop())
+        for c in (f_.calls if f_ is not None else []):
+            if PF.get(c.r) is not None and c.r not in wfns:
+                wfns.add(c.r)
+                work.append(c.r)
+    if R.anchor(sorted(wfns), "width-fns", "the function(s) computing the byte width written by pack_columns"):
+        shape = _width_shape(PF, sorted(wfns))
+        readers = [u] + [x for x in decode_closure_of(F, ctx.G, [u]) if x is not u]
+        signed = [(x, c) for x in readers for c in x.calls if re.search(r"Buf::get_int(_le|_ne)?$", c.f)
+                  and not (op_const(c.args[1]) is not None and (F.const_value(op_const(c.args[1])) or 0) >= 8)]
+        if shape == "unsigned-magnitude":
+            R.require(not signed, "width-extension", signed[0][1].where() if signed else u.where(),
+                      "the writer sizes integers by unsigned magnitude (mask tests only) and the reader zero-extends widths < 8",
+                      fail_msg="pack_columns sizes integers and lengths by their unsigned magnitude (%s test only `value & mask != 0`: 200 -> 1 byte `c8`, negatives -> 8 bytes) but %s reads "
+                               "them with the sign-extending %s: 128..255, 32768..65535, ... come back negative and texts/blobs of those lengths fail to unpack"
+                               % (", ".join(cm.short_id(w) for w in sorted(wfns)), signed[0][0].id if signed else "", signed[0][1].name() if signed else ""))
+        else:
+            R.ok("width-extension", u.where(), "width function shape `%s` not classified: sign agreement of writer and reader not decided" % shape, nontrivial=False)
+
+
+def decode_closure_of(F, G, entries):
+    return G.reachable_bodies(entries, kinds=("call", "closure_sync"))
+
+
+def _width_shape(F, fns):
+    """'unsigned-magnitude' when every branch of the width functions tests `value & const != 0` (or `value * const != 0`)"""
+    n = 0
+    for fid in fns:
+        b = F.get(fid)
+        if b is None:
+            return "unknown"
+        for bb in b.live_blocks():
+            t = b.term(bb)
+            if t["t"] != "sw":
+                continue
+            n += 1
+            d = op_local(t["d"])
+            ok = False
+            for dd in b.defs.get(d, []):
+                if dd[2] == "assign" and dd[3][1][0] == "bin" and dd[3][1][1] in ("Ne", "Eq"):
+                    a, k = dd[3][1][2], dd[3][1][3]
+                    kc = op_const(k)
+                    if kc is None or kc.get("v") != 0 or op_local(a) is None:
+                        continue
+                    # the tested local is BitAnd / Mul of something with a constant
+                    for d2 in b.defs.get(op_local(a), []):
+                        if d2[2] == "assign":
+                            rv = d2[3][1]
+                            if rv[0] == "bin" and rv[1] in ("BitAnd",):
+                                ok = True
+                            if rv[0] == "use" and op_place(rv[1]) is not None:
+                                for d3 in b.defs.get(op_place(rv[1])[0], []):
+                                    if d3[2] == "assign" and d3[3][1][0] == "bin" and d3[3][1][1].startswith("Mul"):
+                                        ok = True
+            if not ok:
+                return "other"
+    return "unsigned-magnitude" if n else "unknown"
+
 
 # ------------------------------------------------------------------------------------------------ controls
 def controls(cctx):
